@@ -49,6 +49,7 @@ import EtkVerif.Asm.Ingest
 import EtkVerif.Asm.FuelLemmas
 import EtkVerif.Asm.ParseTotal
 import EtkVerif.Asm.IngestFuel
+import EtkVerif.Asm.ParseCount
 namespace EtkVerif.C14
 open Asm
 
@@ -241,5 +242,25 @@ theorem C14_ingest_terminates (fs : FS) (cwd : PathC) (N : Nat) (hN : nodesBound
   · intro rnd fuel path e hf h site
     have hb := ingestFile_terminates fs cwd rnd N hN fuel path hf e h
     exact ⟨hb.1 site, hb.2.1 site, hb.2.2 site⟩
+
+/-- a text has at most as many statements as characters: every token-emitting rule of the regenerated grammar consumes
+at least one character (a kernel-evaluated syntactic check of the grammar, `goodGrammar_asm`, sound for the interpreter
+by induction on its fuel) -/
+theorem C14_statements_le_text (text : List Nat) (nodes : List Node) (h : parseAsm text = .ok nodes) :
+    nodes.length ≤ text.length :=
+  parseAsm_nodes_le' text nodes h
+
+/-- `C14_ingest_terminates` with its premise discharged: in a file system whose files have at most `n` characters,
+`ingest_file` run with fuel above the computable threshold `ingestFileFuel fs cwd n path` returns bytes or an error
+value — never a panic outcome of any layer, the fuel markers included (the driver's `asmfs` / `asmfsr` run above that
+threshold: `fsFuelFor`) -/
+theorem C14_ingest_terminates_lengths (fs : FS) (cwd : PathC) (rnd : Nat → Nat) (n : Nat)
+    (hn : ∀ loc text, fs.readText loc = some text → text.length ≤ n)
+    (fuel : Nat) (path : PathC) (hf : ingestFileFuel fs cwd n path ≤ fuel)
+    (e : IngErr) (h : ingestFile fs cwd rnd fuel path = .error e) :
+    ∀ site, e ≠ .panic site ∧ e ≠ .parse (.panic site) ∧ e ≠ .assemble (.panic site) := by
+  intro site
+  have hb := ingestFile_terminates_lengths' fs cwd rnd n hn fuel path hf e h
+  exact ⟨hb.1 site, hb.2.1 site, hb.2.2 site⟩
 
 end EtkVerif.C14
